@@ -37,8 +37,14 @@ EXTENDS Integers, Sequences, FiniteSets, TLC
 \*       (a stalled write), then the peer answered at once: the answer came after the ping's
 \*       deadline, so the ping was missed.  p.at is the instant the session handed the ping to
 \*       its transport; p.h = 0 for every ping the transport did not hold.
+\*   "d" the ping was not answered and what came back instead says that the CONNECTION is dead or
+\*       that the peer has TERMINATED the session (a broken pipe, "404 session not found", the
+\*       peer's DELETE): not a miss of a possibly-live peer but the end of the session, which may
+\*       therefore end at once, whatever the threshold.  It need not: a session that carries on
+\*       counts the ping as failed like any other.  Which concrete events of which transport are
+\*       "c"/"t" (a miss: tolerated up to the threshold) and which are "d" is Part 1b's table.
 Outcomes == {"a", "t", "m", "c"}
-Failures == {"t", "c", "l"}
+Failures == {"t", "c", "l", "d"}
 
 Norm(T) == IF T < 1 THEN 1 ELSE T            \* a threshold below 1 means 1
 PingTimeout(I) == I \div 2
@@ -72,7 +78,8 @@ LastOK(ps, start) == LET S == {i \in 1..Len(ps) : ps[i].o \notin Failures}
 Accuracy(o) ==
   o.closed >= 0 =>
     LET P == Before(o.pings, o.closed)  n == Norm(o.T)
-    IN /\ Run(P, Len(P), n)
+    IN /\ \/ Run(P, Len(P), n)
+          \/ (Len(P) > 0 /\ P[Len(P)].o = "d")  \* or the connection was reported dead / the session terminated
        /\ NoM(P, Len(P))
        /\ o.closed >= P[Len(P)].at            \* not before the last of them was even sent
 
@@ -156,6 +163,90 @@ NoLeftovers(o) ==
   /\ o.closed >= 0 => \A j \in 1..Len(o.pings) : o.pings[j].at <= o.closed
 
 Holds(o) == Accuracy(o) /\ Completeness(o) /\ Timing(o) /\ SilentStop(o) /\ NoLeftovers(o)
+
+-----------------------------------------------------------------------------
+(* Part 1b: transport x how a ping fails                                      *)
+(*                                                                            *)
+(* At the level of the session a ping is answered, times out, is refused as   *)
+(* unsupported or fails with an error.  HOW that shows depends on the         *)
+(* transport: over a stream (in-memory, stdio) the peer is silent, replies    *)
+(* with an error, or the pipe is broken; over streamable HTTP the ping is a   *)
+(* POST that is answered with a result, held, answered with a status and no   *)
+(* JSON-RPC body, refused by the network, or cut; a streamable HTTP server    *)
+(* can only ping through the stream its client keeps attached; over legacy    *)
+(* SSE the ping is a POST and the answer an event.  For each such class the   *)
+(* table states what the PROPERTY makes of it:                                *)
+(*   "a"  answered                                                            *)
+(*   "t"  a miss by silence   \  the peer may well be alive: tolerated, the   *)
+(*   "c"  a miss by an error  /  session ends only at the threshold           *)
+(*   "m"  ping unsupported: keep-alive stops, the session stays               *)
+(*   "d"  the connection is dead / the session has been terminated: the       *)
+(*        session may end at once (and ends at the threshold at the latest)   *)
+(* and on what grounds (never on the grounds of what the code does):          *)
+(*   "prop"  the property's own outcome classes (answered / timed out /       *)
+(*           method-not-found / connection error are the pattern alphabet:    *)
+(*           a connection error is a failed ping like a time-out)             *)
+(*   "doc"   documented by the SDK: isTransientHTTPStatus ("a transient server *)
+(*           error that should not permanently break the connection": 429 500 *)
+(*           502 503 504); docs/mcpgodebug.md noprotocolerrorbody (a non-2xx  *)
+(*           response with a JSON-RPC error body is a per-call rejection that *)
+(*           does "not tear down the session", "any non-transient error will  *)
+(*           permanently fail the connection" otherwise); Connection.Close    *)
+(*           ("implicitly called whenever a Read or Write fails");            *)
+(*           streamableServerConn.Write ("a failure to deliver to a stream is *)
+(*           not an indication that the logical session is broken")           *)
+(*   "spec"  MCP transports 2.5.3: a server that has terminated the session   *)
+(*           answers 404 Not Found; a client ends a session with DELETE       *)
+(*   "none"  nothing says what this is (a peer or a front that breaks the     *)
+(*           protocol; a transport that documents no error classes): the      *)
+(*           property does not decide, so the permissive "d" - whatever the   *)
+(*           session does with it is accepted, it only has to be consistent   *)
+(*           with the rest (Completeness still counts the ping as failed)     *)
+ClassTable == {
+  \* a stream Connection: in-memory, stdio, any custom transport
+  <<"mem", "reply", "a", "prop">>, <<"mem", "silent", "t", "prop">>, <<"mem", "late", "t", "prop">>,
+  <<"mem", "rpcerr", "c", "prop">>, <<"mem", "rejected", "c", "doc">>, <<"mem", "mnf", "m", "prop">>,
+  <<"mem", "broken", "d", "doc">>,
+  \* streamable HTTP client: the ping is a POST
+  <<"httpc", "200json", "a", "prop">>, <<"httpc", "200sse", "a", "prop">>,
+  <<"httpc", "hang", "t", "prop">>,        \* no HTTP response while the ping lasts
+  <<"httpc", "ssesilent", "t", "prop">>,   \* 200 text/event-stream, kept open, the response never comes
+  <<"httpc", "429", "c", "doc">>, <<"httpc", "500", "c", "doc">>, <<"httpc", "502", "c", "doc">>,
+  <<"httpc", "503", "c", "doc">>, <<"httpc", "504", "c", "doc">>,   \* a status of the transient list, no JSON-RPC body
+  <<"httpc", "refused", "c", "prop">>,     \* the POST did not reach the server (connection refused / reset)
+  <<"httpc", "200rpcerr", "c", "prop">>,   \* 200 with a JSON-RPC error other than method-not-found
+  <<"httpc", "400rpcerr", "c", "doc">>, <<"httpc", "404rpcerr", "c", "doc">>,  \* non-2xx WITH a JSON-RPC error body
+  <<"httpc", "200mnf", "m", "prop">>, <<"httpc", "400mnf", "m", "doc">>,
+  <<"httpc", "404", "d", "spec">>,         \* session not found: the server has terminated it
+  <<"httpc", "400", "d", "doc">>, <<"httpc", "403", "d", "doc">>, <<"httpc", "405", "d", "doc">>,  \* non-transient, no JSON-RPC body
+  <<"httpc", "202", "d", "none">>,         \* "accepted" in reply to a request: no response can follow
+  <<"httpc", "jsoncut", "d", "none">>,     \* 200 application/json whose body ends in the middle
+  <<"httpc", "jsonbad", "d", "none">>,     \* 200 application/json whose body is no JSON-RPC message
+  <<"httpc", "ssecut", "d", "none">>,      \* 200 text/event-stream that ends before any event
+  <<"httpc", "ctype", "d", "none">>,       \* 200 with a content type that is neither
+  \* streamable HTTP server pinging its client: only through the stream the client keeps attached
+  <<"https", "posted", "a", "prop">>,      \* the client POSTs the response
+  <<"https", "silent", "t", "prop">>,      \* stream attached, the client does not answer
+  <<"https", "nostream", "c", "doc">>,     \* no stream attached: the ping cannot be delivered (the client may re-attach)
+  <<"https", "rpcerr", "c", "prop">>, <<"https", "mnf", "m", "prop">>,
+  <<"https", "deleted", "d", "spec">>,     \* the client answers the ping by ending the session (DELETE)
+  \* legacy SSE client: the ping is a POST to the message endpoint, the answer an event
+  <<"sse", "event", "a", "prop">>, <<"sse", "silent", "t", "prop">>, <<"sse", "rpcerr", "c", "prop">>,
+  <<"sse", "mnf", "m", "prop">>,
+  <<"sse", "500", "d", "none">>, <<"sse", "503", "d", "none">>, <<"sse", "404", "d", "none">>,
+  <<"sse", "refused", "d", "none">>,       \* the transport documents no error classes
+  <<"sse", "streamend", "d", "doc">>       \* the event stream ended: the connection is gone
+}
+Transports == {r[1] : r \in ClassTable}
+ClassesOf(tr) == {r[2] : r \in {x \in ClassTable : x[1] = tr}}
+\* (a constant function: TLC evaluates it once)
+RowMap == [k \in {<<r[1], r[2]>> : r \in ClassTable} |-> CHOOSE r \in ClassTable : r[1] = k[1] /\ r[2] = k[2]]
+VerdictOf(tr, cl) == RowMap[<<tr, cl>>][3]
+BasisOf(tr, cl) == RowMap[<<tr, cl>>][4]
+\* a script of classes is, for the property, the script of their verdicts
+Abstract(tr, cs) == [i \in 1..Len(cs) |-> VerdictOf(tr, cs[i])]
+ASSUME \A r \in ClassTable : r[3] \in Outcomes \cup {"d"} /\ r[4] \in {"prop", "doc", "spec", "none"}
+ASSUME \A r, s \in ClassTable : (r[1] = s[1] /\ r[2] = s[2]) => r = s
 
 -----------------------------------------------------------------------------
 (* Part 2: the ticker loop                                                    *)
@@ -288,8 +379,10 @@ OutcomeAt(i) == IF i <= Len(script) THEN script[i] ELSE "u"
 Delays(oc) == IF oc = "a" THEN AnswerDelays ELSE {0}
 NextAfter(t) == (t \div Interval + 1) * Interval      \* the first tick after t
 
-Init ==
-  /\ script \in Scripts /\ thr0 \in Thresholds /\ endMode \in {"idle", "inflight", "drain", "held"}
+\* (SS: the scripts of the configuration - Scripts, or the transport dimension's abstract scripts, which
+\* may also contain "d": KeepAliveTr)
+InitWith(SS) ==
+  /\ script \in SS /\ thr0 \in Thresholds /\ endMode \in {"idle", "inflight", "drain", "held"}
   /\ EndsHeld(script) <=> endMode = "held"
   /\ drain \in (IF endMode = "drain" THEN DrainLens ELSE {0}) /\ drainedAt = -1
   /\ hs \in HsSlots /\ cc \in CtxSlots
@@ -311,6 +404,7 @@ Init ==
   /\ pendTick = FALSE /\ slots = Len(script) + Shift(script)
   /\ cf = 0 /\ k = 0 /\ pend = [o |-> "a", d |-> 0] /\ resolveAt = 0 /\ hist = <<>>
   /\ closedAt = -1 /\ userAt = -1
+Init == InitWith(Scripts)
 
 \* case <-ticker.C: send a ping with a deadline of half an interval FROM NOW - which is the
 \* tick's own time when the loop was receiving, and later than that when the tick had to wait.
@@ -346,6 +440,14 @@ Resolve ==
      ELSE IF pend.o = "m" THEN
         /\ pc' = "stopped" /\ tickerOn' = FALSE
         /\ UNCHANGED <<cf, ctxDone, closedAt>>
+     ELSE IF pend.o = "d" THEN
+        \* the connection is dead / the peer has terminated the session: the session is over there and
+        \* then.  (What is left of the loop can only make attempts that the dead connection refuses
+        \* locally - no ping reaches anybody - until its counter is at the threshold; that tail is not
+        \* modelled: the loop counts as gone, the observation allows it the threshold's intervals.)
+        /\ pc' = "closed" /\ tickerOn' = FALSE /\ ctxDone' = TRUE
+        /\ closedAt' = (IF userAt < 0 THEN resolveAt ELSE closedAt)
+        /\ UNCHANGED cf
      ELSE
         /\ cf' = cf + 1
         /\ IF cf + 1 < Norm(thr0) THEN
